@@ -1265,6 +1265,7 @@ fn e2_case(tier: Tier, kind: L, ctx: &mut Ctx) {
 		}
 	};
 	let stats = sched::explore(tier.pick(Some(2), Some(3)), 2_000_000, &mut body, &mut judge);
+	sched::report(ctx, &stats);
 	if let Some(e) = stats.error {
 		ctx.fail(format!("MACHINERY: scheduler error: {}", e), "");
 	}
